@@ -29,6 +29,15 @@ def idx(far=True, span=14):
     return weighted(*opts)
 
 
+def ridx(far=True, span=14):
+    """index argument that may refer to the value it is used on: a plain int / None, or {'pt': k, 'd': d} = the k-th style
+    change point (mod their number) plus d, or {'pc': p} = p percent of the length (resolved by interp.resolve_idx)"""
+    return weighted((6, idx(far, span)),
+                    (3, st.fixed_dictionaries({'pt': st.integers(0, 60), 'd': st.sampled_from([0, 0, 0, -1, 1])})),
+                    (1, st.fixed_dictionaries({'pc': st.integers(0, 105)})),
+                    (1, st.fixed_dictionaries({'pt': st.integers(0, 60), 'd': st.sampled_from([0, 0, -1, 1]), 'neg': st.just(True)})))
+
+
 # ---- settings pool: built to conflict (several members per effect group incl. the clear code)
 
 NAMES = ['bold', 'faint', 'no_bold_faint', 'italic', 'no_italic', 'underline', 'double_underline', 'no_underline',
@@ -78,8 +87,9 @@ def wf_spec():
         st.tuples(name, st.sampled_from([0, 0, 0, 1, 2, 3])).map(lambda t: {'k': 'name', 'v': _variant(*t)}),
         st.tuples(name, st.sampled_from([0, 0, 0, 1, 2, 3])).map(lambda t: {'k': 'name', 'v': _variant(*t)}),
         name.map(lambda n: {'k': 'fmt', 'v': n.upper()}),
-        st.sampled_from([1, 2, 3, 4, 22, 24, 31, 34, 39, 41, 49, 21, 9, 29, 10, 11, 12, 10]).map(lambda i: {'k': 'int', 'v': i}),
-        st.sampled_from(['1', '31', '1;31', '4;34', '22', '39', '38;5;200', '1;38;5;200', '48;2;1;2;3;3', '58;5;3;4']).map(
+        st.sampled_from([1, 2, 3, 4, 22, 24, 31, 34, 39, 41, 49, 21, 9, 29, 10, 11, 12, 10, 107, 100, 97, 90, 55, 59, 20, 30, 37, 40, 47]).map(lambda i: {'k': 'int', 'v': i}),
+        st.sampled_from(['1', '31', '1;31', '4;34', '22', '39', '38;5;200', '1;38;5;200', '48;2;1;2;3;3', '58;5;3;4', 'rgb(1,2,3)', 'bg_color256(7)',
+                         'rgb(1,2,3)', 'ul_rgb(0x102030)']).map(
             lambda s: {'k': 'str', 'v': s}),
         st.sampled_from(['1', '31', '38;5;214', '48;2;1;2;3', '22', '39', '2', '01', '04', '038;5;9', '031']).map(lambda s: {'k': 'verb', 'v': s}),
         st.sampled_from(['1', '34', '38;5;214', '24', '49', '03', '048;5;007']).map(lambda s: {'k': 'aset', 'v': s}),
@@ -161,11 +171,17 @@ def text_len(cfg):
 def ctor(cfg):
     # strategies are built once here: constructing them inside the composite costs ~30 ms per draw
     tl = text_len(cfg)
-    tx = {n: texts(n, n, esc=cfg.esc, nonascii=cfg.nonascii, alphabet=cfg.alphabet) for n in range(cfg.min_text, cfg.max_text + 1)}
+    if cfg.max_text - cfg.min_text > 80:
+        # very long texts: a short generated chunk repeated and cut (keeps generation cheap, patterns recur)
+        chunk = texts(3, 9, esc=cfg.esc, nonascii=cfg.nonascii, alphabet=cfg.alphabet)
+        tx = {n: chunk.map(lambda c, n=n: (c * (n // len(c) + 1))[:n]) for n in range(cfg.min_text, cfg.max_text + 1)}
+    else:
+        tx = {n: texts(n, n, esc=cfg.esc, nonascii=cfg.nonascii, alphabet=cfg.alphabet) for n in range(cfg.min_text, cfg.max_text + 1)}
     kinds = ['ranges'] * 6 + ['fmt'] if cfg.rich else ['plain', 'fmt', 'ranges', 'ranges', 'ranges', 'ranges']
     kind_s = st.sampled_from(kinds + (['ansi'] if cfg.ansi_ctor else []))
     sp = specs(cfg)
     sp12 = specs(cfg, 1, 2)
+    sp_many = specs(cfg, 6, 12)
     at = ansi_text(cfg)
     nr = st.integers(*cfg.nranges) if cfg.nranges else st.integers(2 if cfg.rich else 1, 5 if cfg.rich else 4)
     d10 = st.integers(0, 9)
@@ -182,7 +198,7 @@ def ctor(cfg):
         if kind == 'plain':
             return {'k': 'plain', 't': t}
         if kind == 'fmt':
-            return {'k': 'fmt', 't': t, 's': draw(sp)}
+            return {'k': 'fmt', 't': t, 's': draw(sp_many if (cfg.big and draw(d3) == 0) else sp)}
         if kind == 'ansi':
             return {'k': 'ansi', 't': draw(at)}
         rs = []
@@ -236,13 +252,13 @@ def op(cfg, depth, names=None, opnd=None):
     opd = opnd if opnd is not None else operand(cfg, depth)
     pa = ''.join(cfg.alphabet) if cfg.alphabet and all(len(x) == 1 for x in cfg.alphabet) else 'abAB -:01'
     table = {
-        'apply': st.fixed_dictionaries({'op': st.just('apply'), 's': specs(cfg), 'a': idx(cfg.far, cfg.idx_span), 'b': idx(cfg.far, cfg.idx_span),
+        'apply': st.fixed_dictionaries({'op': st.just('apply'), 's': specs(cfg), 'a': ridx(cfg.far, cfg.idx_span), 'b': ridx(cfg.far, cfg.idx_span),
                                         'top': st.sampled_from([True, True, False])}),
         'remove': st.fixed_dictionaries({'op': st.just('remove'), 's': st.one_of(st.none(), specs(cfg, 1, 2)),
-                                         'a': idx(cfg.far, cfg.idx_span), 'b': idx(cfg.far, cfg.idx_span)}),
-        'slice': st.fixed_dictionaries({'op': st.just('slice'), 'a': idx(cfg.far, cfg.idx_span), 'b': idx(cfg.far, cfg.idx_span)}),
+                                         'a': ridx(cfg.far, cfg.idx_span), 'b': ridx(cfg.far, cfg.idx_span)}),
+        'slice': st.fixed_dictionaries({'op': st.just('slice'), 'a': ridx(cfg.far, cfg.idx_span), 'b': ridx(cfg.far, cfg.idx_span)}),
         'index': st.fixed_dictionaries({'op': st.just('index'), 'i': st.integers(-12, 12)}),
-        'clip': st.fixed_dictionaries({'op': st.just('clip'), 'a': idx(cfg.far, cfg.idx_span), 'b': idx(cfg.far, cfg.idx_span), 'ip': ip}),
+        'clip': st.fixed_dictionaries({'op': st.just('clip'), 'a': ridx(cfg.far, cfg.idx_span), 'b': ridx(cfg.far, cfg.idx_span), 'ip': ip}),
         'add': st.fixed_dictionaries({'op': st.just('add'), 'x': opd}),
         'iadd': st.fixed_dictionaries({'op': st.just('iadd'), 'x': opd}),
         'join': st.fixed_dictionaries({'op': st.just('join'), 'xs': st.lists(opd, max_size=3)}),
@@ -301,7 +317,31 @@ def progs(cfg, depth=1):
     big.max_text = max(cfg.max_text, 60)
     big.idx_span = 70
     big.nranges = (6, 16)
-    return weighted((3, prog(cfg, depth)), (6, prog(rich, depth)), (1, prog(big, depth)))
+    # beyond CPython's small-int cache (256) and beyond 64 change points
+    huge = copy.copy(cfg)
+    huge.rich = True
+    huge.big = True
+    huge.min_text = 258
+    huge.max_text = 340
+    huge.idx_span = 350
+    huge.nranges = (20, 45)
+    huge.max_ops = min(cfg.max_ops, 3)
+    return weighted((12, prog(cfg, depth)), (24, prog(rich, depth)), (4, prog(big, depth)), (1, prog(huge, max(0, depth - 1))))
+
+
+def prog_huge(cfg, depth=0):
+    """values beyond CPython's small-int cache (text > 256 chars) with 40-90 change points"""
+    import copy
+    huge = copy.copy(cfg)
+    huge.rich = True
+    huge.big = True
+    huge.min_text = 258
+    huge.max_text = 340
+    huge.idx_span = 350
+    huge.nranges = (20, 45)
+    huge.max_ops = min(cfg.max_ops, 3)
+    huge.ansi_ctor = False
+    return prog(huge, depth)
 
 
 def prog(cfg, depth=1, max_ops=None):
